@@ -353,7 +353,8 @@ def direction_traces(lines):
                     continue
                 ha, la = eps[a]
                 hb, lb = eps[b]
-                tr = [{"e": "reset", "sc": sc, "from": a, "to": b, "sync": ha["sync"], "async": ha["async"], "max": ha["max"]}]
+                tr = [{"e": "reset", "sc": sc, "from": a, "to": b, "sync": ha["sync"], "async": ha["async"], "max": ha["max"],
+                       "tr": ha.get("tr", "tcp")}]
                 a_open, b_open, na_open, nb_open, sends, dl = False, False, 0, 0, 0, 0
                 for d in la:
                     if d.get("p") != b:
@@ -518,3 +519,75 @@ def save_known_repros(ctx, violations):
             p = os.path.join(REPLAYS, "%s_known_%s.json" % (ctx.pid, sig))
             if not os.path.exists(p):
                 save_replay(ctx, "known_%s" % sig, v["replay_obj"])
+
+
+# ----------------------------------------------------------------------------- transport dimension
+
+TRANSPORTS = ("tcp", "ws", "quic")
+# families that need a byte-stream proxy (stalling a link without losing bytes): not run over QUIC
+NOT_ON_QUIC = ("sfam-frozen-transport",)
+
+
+def family_of(script):
+    return script["id"].rsplit("-", 1)[0]
+
+
+def with_transport(script, tr):
+    """copy of a scenario for another transport (ws: TCP proxy as for tcp; quic: UDP relay, black-hole cuts,
+    quinn idle timeout 5 s, so deadlines and the quiescence bound are scaled)"""
+    s = json.loads(json.dumps(script))
+    s["id"] = "%s@%s" % (s["id"], tr)
+    s["cfg"]["transport"] = tr
+    if tr == "quic":
+        s["cfg"]["tq_ms"] = max(s["cfg"].get("tq_ms", 60000), 70000)
+    return s
+
+
+def on_transport(scripts, tr, per_family=None):
+    """all scenarios (or `per_family` of every family) for transport tr; returns (scripts, skipped family names)"""
+    out, seen, skipped = [], {}, set()
+    for sc in scripts:
+        fam = family_of(sc)
+        if tr == "quic" and fam.startswith(NOT_ON_QUIC):
+            skipped.add(fam)
+            continue
+        seen[fam] = seen.get(fam, 0) + 1
+        if per_family is not None and seen[fam] > per_family:
+            continue
+        out.append(with_transport(sc, tr) if tr != "tcp" else sc)
+    return out, sorted(skipped)
+
+
+def transport_of(reset_line):
+    return json.loads(reset_line).get("tr", "tcp")
+
+
+def transport_plan(ctx, fams, tlc_scripts, rand_fn, nrand):
+    """tcp: everything as before; ws / quic: quick = a sample of every family (2 instances), a few TLC scenarios and
+    random ones; thorough = every family and TLC scenario and a third of the random volume each.
+    Returns (scripts, {transport: [families not run there]})."""
+    scripts = list(fams) + list(tlc_scripts) + [rand_fn(i) for i in range(nrand)]
+    skipped = {}
+    for k, tr in enumerate(("ws", "quic")):
+        if ctx.quick():
+            f, sk = on_transport(fams, tr, per_family=2)
+            extra = tlc_scripts[k::2][:8] + [rand_fn(nrand + 100 * (k + 1) + i) for i in range(12)]
+        else:
+            f, sk = on_transport(fams, tr)
+            extra = list(tlc_scripts) + [rand_fn(nrand + 100000 * (k + 1) + i) for i in range(nrand // 3)]
+        scripts += f + [with_transport(x, tr) for x in extra]
+        skipped[tr] = sk
+    return scripts, skipped
+
+
+def run_batches(ctx, scripts, tag, build_s):
+    lines, summs = [], []
+    batch = 700 if ctx.quick() else 500
+    for b in range(0, len(scripts), batch):
+        summ, ls = run_scripts(ctx, scripts[b:b + batch], "%s%d" % (tag, b), threads=170 if ctx.quick() else 125)
+        summs.append(summ)
+        lines += ls
+        log("HARNESS batch %d: %s (build %ss)" % (b // batch, summ, build_s))
+    if sum(s["harness_panics"] for s in summs) or sum(s["connect_failed"] for s in summs) > len(scripts) // 10:
+        raise ToolError("harness trouble: %s" % summs)
+    return lines, summs
